@@ -296,7 +296,142 @@ def job(args):
             'digest': common.digest(sorted(repr(k) for k in res['keys']))}
 
 
+# ------------------------------------------------------------------ reload tier
+CHANGESETS = ('edit-only', 'new-helper-module', 'new-stdlib-import', 'drop-import', 'new-helper-in-leaf')
+
+
+def write_ae(root, gen, applied):
+    '''the algorithm-engine package as of the changesets applied so far'''
+    import os
+    base = os.path.join(root, 'c10ae', 'sky')
+    os.makedirs(base, exist_ok=True)
+    bot = ['import c10ae.sky.algorithms']
+    alg = []
+    for cs in applied:
+        if cs == 'new-helper-module':
+            bot.append('import c10ae.sky.util')
+        elif cs == 'new-stdlib-import':
+            bot.append('import colorsys')
+        elif cs == 'drop-import':
+            bot = [b for b in bot if b != 'import c10ae.sky.algorithms']
+        elif cs == 'new-helper-in-leaf':
+            alg.append('import c10ae.sky.extra')
+    files = {
+        os.path.join(root, 'c10ae', '__init__.py'): '',
+        os.path.join(base, '__init__.py'): 'import c10ae.sky.bot\nGEN = %d\n' % gen,
+        os.path.join(base, 'bot.py'): '\n'.join(bot) + '\nGEN = %d\n' % gen,
+        os.path.join(base, 'algorithms.py'): '\n'.join(alg) + '\nGEN = %d\n' % gen,
+        os.path.join(base, 'util.py'): 'GEN = %d\n' % gen,
+        os.path.join(base, 'extra.py'): 'GEN = %d\n' % gen,
+    }
+    for fn, text in files.items():
+        with open(fn, 'wt', encoding='utf-8') as f:
+            f.write(text)
+
+
+def reload_tier(args):
+    '''the update path with the REAL FSM._reload and RollbackImporter: for every
+    sequence of <= 2 changesets to a small engine package, boot, then one
+    update cycle per changeset; after each the pipeline must be back at rest in
+    running with the new code loaded'''
+    tier, seed = args
+    import builtins
+    import importlib
+    import itertools
+    import os
+    import shutil
+    import sys
+    import dawgie.context
+    import dawgie.db
+    import dawgie.pl.state as state
+    from . import fsmworld
+
+    ctx = common.Ctx('C10', tier, seed, LEVEL)
+    w = fsmworld.FSMWorld()
+    F = state.FSM
+    saved = (F._reload, F._pipeline, state.RollbackImporter, dawgie.db.close, dawgie.context._rev,
+             builtins.__import__, dawgie.context.ae_base_package)
+    root = os.path.join(common.scratch_root(), 'c10reload')
+
+    def pipeline(self, *a, **k):
+        # what the scan does: import every package of the engine
+        fsmworld._installed['world'][0].log.append('pipeline')
+        builtins.__import__('c10ae.sky')
+
+    F._reload = fsmworld._installed['_reload']
+    F._pipeline = pipeline
+    state.RollbackImporter = fsmworld._installed['RollbackImporter']
+    dawgie.db.close = lambda: None
+    dawgie.context._rev = lambda: 'r2'
+    dawgie.context.ae_base_package = 'c10ae'
+    depth = 2 if tier == 'quick' else 3
+
+    def settle():
+        for _ in range(50):
+            todo = [t for t in w.pending() if not t.poller]
+            und = [t for t in w.undelivered() if not t.poller]
+            if not todo and not und:
+                return
+            for t in todo:
+                w.run_thread(t)
+            for t in [t for t in w.undelivered() if not t.poller]:
+                w.deliver(t)
+
+    try:
+        for n in range(0, depth + 1):
+            for seq in itertools.product(CHANGESETS, repeat=n):
+                ctx.count('reload_histories')
+                rep = {'tier': 'reload', 'changesets': list(seq)}
+                shutil.rmtree(root, ignore_errors=True)
+                os.makedirs(root)
+                for m in [m for m in sys.modules if m == 'c10ae' or m.startswith('c10ae.')]:
+                    del sys.modules[m]
+                sys.modules.pop('colorsys', None)
+                if root not in sys.path:
+                    sys.path.insert(0, root)
+                write_ae(root, 0, [])
+                importlib.invalidate_caches()
+                builtins.__import__ = saved[5]
+                w.reset()
+                f = w.fsm
+                f.starting_trigger()
+                settle()
+                if not (f.state == 'running' and f.transitioning == state.Status.active):
+                    raise common.HarnessBroken(f'reload tier: boot ends in {f.state}/{f.transitioning}')
+                for i, cs in enumerate(seq):
+                    write_ae(root, i + 1, seq[:i + 1])
+                    importlib.invalidate_caches()
+                    ctx.count('reload_cycles')
+                    try:
+                        f.update_trigger()
+                    except Exception as e:  # noqa
+                        ctx.violation(f'C10/reload/update-trigger-raises/{type(e).__name__}', f'{e!r}', rep)
+                        break
+                    settle()
+                    if not (f.state == 'running' and f.transitioning == state.Status.active and w.at_rest()):
+                        failed = [repr(t.result) for t in w.threads if getattr(t, 'failed', False)]
+                        ctx.violation(f'C10/reload/not-back-at-rest/in-{f.state}/{cs}',
+                                      f'changesets {list(seq[:i + 1])}: after the update the pipeline is in {f.state}/'
+                                      f'{f.transitioning.name}; failed background steps: {failed}', rep)
+                        break
+                    gens = {m: getattr(sys.modules.get(m), 'GEN', None)
+                            for m in ('c10ae.sky', 'c10ae.sky.bot', 'c10ae.sky.algorithms')}
+                    if any(g != i + 1 for g in gens.values()):
+                        ctx.violation(f'C10/reload/stale-code-after-update/{cs}',
+                                      f'changesets {list(seq[:i + 1])}: loaded generations {gens}, expected {i + 1}', rep)
+                        break
+    finally:
+        (F._reload, F._pipeline, state.RollbackImporter, dawgie.db.close, dawgie.context._rev,
+         builtins.__import__, dawgie.context.ae_base_package) = saved
+        if root in sys.path:
+            sys.path.remove(root)
+        shutil.rmtree(root, ignore_errors=True)
+    return ctx.export()
+
+
 def run(ctx):
+    for r in common.pmap(reload_tier, [(ctx.tier, ctx.seed)]):
+        ctx.merge(r)
     jobs = [(ctx.tier, ctx.seed, 2, 1, 1)] if ctx.quick() else [(ctx.tier, ctx.seed, 2, 2, 1), (ctx.tier, ctx.seed, 3, 1, 2)]
     states = transitions_n = 0
     per = []
@@ -321,12 +456,18 @@ def run(ctx):
     cov = {'states': states, 'transitions': transitions_n, 'traces_validated_against_impl': transitions_n,
            'explanation': 'every transition re-executes its history on the real FSM; in every state all illegal '
                           'triggers are probed and all outstanding background steps are drained',
+           'reload_tier': 'real FSM._reload + RollbackImporter: every sequence of <= 2 (thorough 3) changesets out of '
+                          f'{len(CHANGESETS)} to a generated package, one update cycle each: '
+                          f'{ctx.counters.get("reload_histories", 0)} histories, {ctx.counters.get("reload_cycles", 0)} cycles',
            'per_configuration': per}
     return common.finish(ctx, cov, exhaustive=True)
 
 
 def replay(data):
     r = data['replay']
+    if r.get('tier') == 'reload':
+        print('changeset sequence', r['changesets'], '- re-run `bin/check C10` (the reload tier executes all sequences)')
+        return 1
     dr = Driver(*r['bounds'])
     dr.reset()
     hits = []
